@@ -108,6 +108,15 @@ pub trait RecUni: 'static {
     /// Does this universe have a uni-STARK arm?
     const HAS_UNI: bool = true;
     fn common_for(proof: &Self::BatchProof, honest: &Self::Common) -> Self::Common;
+    /// Number of public values the verifier supplies next to a batch proof (the circuit-prover
+    /// tables have none; the custom-AIR universe does).
+    fn batch_pv_len(_c: &Self::Common) -> usize {
+        0
+    }
+    /// The verifier-side data with public value `pos` altered.
+    fn batch_pv_fault(_c: &Self::Common, _pos: usize, _seed: u64) -> Option<Self::Common> {
+        None
+    }
     fn batch_build(s: &FriShape, proof: &Self::BatchProof, common: &Self::Common) -> Result<Self::BatchBuilt, CircuitVerdict>;
     fn batch_run(b: &Self::BatchBuilt, proof: &Self::BatchProof, common: &Self::Common) -> (CircuitVerdict, CircuitInfo) {
         Self::batch_run_mut(b, proof, common, None)
